@@ -50,20 +50,37 @@ impl Arena {
     pub fn new_sparse(pages: usize) -> Arena {
         Self::new_flags(pages, libc::MAP_NORESERVE)
     }
+    /// An arena whose data area ends exactly at the address `end` (a multiple of the page size), e.g. at a multiple
+    /// of 4 GiB: addresses are an input dimension too.  `None` when that address range is not free in this process.
+    pub fn new_ending_at(pages: usize, end: usize) -> Option<Arena> {
+        const G: usize = 16 * PAGE;
+        assert_eq!(end % PAGE, 0);
+        let want = end - pages * PAGE - G;
+        Self::new_at(pages, libc::MAP_FIXED_NOREPLACE, want as *mut libc::c_void)
+    }
     fn new_flags(pages: usize, extra: libc::c_int) -> Arena {
+        Self::new_at(pages, extra, std::ptr::null_mut()).expect("mmap failed")
+    }
+    fn new_at(pages: usize, extra: libc::c_int, addr: *mut libc::c_void) -> Option<Arena> {
         const G: usize = 16 * PAGE;
         let len = pages * PAGE;
         let total = len + 2 * G;
         unsafe {
             let map = libc::mmap(
-                std::ptr::null_mut(),
+                addr,
                 total,
                 libc::PROT_NONE,
                 libc::MAP_PRIVATE | libc::MAP_ANONYMOUS | extra,
                 -1,
                 0,
             );
-            assert!(map != libc::MAP_FAILED, "mmap failed");
+            if map == libc::MAP_FAILED {
+                return None;
+            }
+            if !addr.is_null() && map != addr {
+                libc::munmap(map, total);
+                return None;
+            }
             let map = map as *mut u8;
             let data = map.add(G);
             let r = libc::mprotect(data as *mut _, len, libc::PROT_READ | libc::PROT_WRITE);
@@ -75,7 +92,7 @@ impl Arena {
             GUARDS[i + 1][0].store(data as usize + len, Ordering::Relaxed);
             GUARDS[i + 1][1].store(map as usize + total, Ordering::Relaxed);
             NGUARDS.store(i + 2, Ordering::Relaxed);
-            Arena { map, data, len }
+            Some(Arena { map, data, len })
         }
     }
     pub fn len(&self) -> usize {
